@@ -467,6 +467,160 @@ end Gen.DistogramObj
 ''' % (tgt, ub, ab, bb)
 
 
+def below_expr(prof):
+    """`estimate_values_below(point)`: what it returns, over `c` = `distogram.count_at(<the kept Distogram>, point)` and
+    `total` = that histogram's own total.  In the source as it is: `c`."""
+    f = find_function(prof.tree, "estimate_values_below", "ColumnProfile")
+    params = [a.arg for a in f.args.args]
+    if len(params) != 2 or params[0] != "self":
+        raise KeyError("estimate_values_below(self, point)")
+    rets = [n for n in ast.walk(f) if isinstance(n, ast.Return)]
+    if len(rets) != 1 or f.body[-1] is not rets[0] or rets[0].value is None:
+        raise KeyError("estimate_values_below: a single return at the end")
+    calls = [n for n in ast.walk(rets[0].value) if isinstance(n, ast.Call) and ast.unparse(n.func) == "distogram.count_at"]
+    if len(calls) != 1 or calls[0].keywords or len(calls[0].args) != 2 or ast.unparse(calls[0].args[1]) != params[1] \
+            or not ast.unparse(calls[0].args[0]).startswith("self."):
+        raise KeyError("estimate_values_below: one distogram.count_at(self.<kept>, point)")
+    env = {ast.unparse(calls[0]): "c"}
+    for n in ast.walk(rets[0].value):
+        if isinstance(n, ast.Call) and not n.keywords and ast.unparse(n.func) == "distogram.count" and len(n.args) == 1 \
+                and ast.unparse(n.args[0]) == ast.unparse(calls[0].args[0]):
+            env[ast.unparse(n)] = "total"
+    return to_lean(rets[0].value, env, mode="field")
+
+
+# --------------------------------------------------------------------------- table profiles (round 4)
+
+RIGHT_ROWS_SHAPES = ("{r}._columns[0].countif{r}._columnselse0", "{r}._columns[0].countiflen({r}._columns)>0else0",
+                     "{r}._columns[0].countiflen({r}._columns)else0")
+
+
+def table_add(prof):
+    """`TableProfile.__add__`: the loop over the left table's column names, the two look-ups, the placeholder built for a
+    column the right table lacks — `ColumnProfile(name, left.type, <count>, <missing>)`, nothing else set — and the order of
+    the column sum.  -> (count expression, missing expression, left operand first?) over `lc` / `lm` (the left column's
+    count / missing) and `rr` (the right table's row count: its first column's `count`, 0 without columns)."""
+    f = find_function(prof.tree, "__add__", "TableProfile")
+    params = [a.arg for a in f.args.args]
+    if len(params) != 2 or params[0] != "self":
+        raise KeyError("__add__(self, right)")
+    right = params[1]
+    loops = [s for s in f.body if isinstance(s, ast.For)]
+    if len(loops) != 1 or ast.unparse(loops[0].iter) != "self._column_names" or not isinstance(loops[0].target, ast.Name) or loops[0].orelse:
+        raise KeyError("for <name> in self._column_names")
+    name = loops[0].target.id
+    # names bound before the loop: the new table, and possibly the right table's row count
+    env, new = {}, None
+    for s in f.body[: f.body.index(loops[0])]:
+        if isinstance(s, ast.Expr) and isinstance(s.value, ast.Constant):
+            continue
+        if not (isinstance(s, ast.Assign) and len(s.targets) == 1 and isinstance(s.targets[0], ast.Name)):
+            raise KeyError("statement before the loop: %s" % type(s).__name__)
+        v = ast.unparse(s.value).replace(" ", "")
+        if v == "TableProfile()":
+            new = s.targets[0].id
+        elif v in [t.format(r=right) for t in RIGHT_ROWS_SHAPES]:
+            env[s.targets[0].id] = "rr"
+        else:
+            raise KeyError("before the loop: %s = %s" % (s.targets[0].id, v[:40]))
+    after = f.body[f.body.index(loops[0]) + 1:]
+    if new is None or len(after) != 1 or not isinstance(after[0], ast.Return) or ast.unparse(after[0].value) != new:
+        raise KeyError("new = TableProfile() ... return new")
+    left_c = right_c = None
+    placeholder = None
+    order = None
+    for s in loops[0].body:
+        if isinstance(s, ast.Assign) and len(s.targets) == 1 and isinstance(s.targets[0], ast.Name):
+            v = ast.unparse(s.value).replace(" ", "")
+            if v == "self.column(%s)" % name and left_c is None and placeholder is None and order is None:
+                left_c = s.targets[0].id
+                continue
+            if v == "%s.column(%s)" % (right, name) and right_c is None and placeholder is None and order is None:
+                right_c = s.targets[0].id
+                continue
+            raise KeyError("in the loop: %s = %s" % (s.targets[0].id, v[:40]))
+        if isinstance(s, ast.If) and right_c and left_c and placeholder is None and order is None and not s.orelse \
+                and ast.unparse(s.test).replace(" ", "") in ("not%s" % right_c, "%sisNone" % right_c) and len(s.body) == 1:
+            a = s.body[0]
+            if not (isinstance(a, ast.Assign) and len(a.targets) == 1 and ast.unparse(a.targets[0]) == right_c and isinstance(a.value, ast.Call)
+                    and ast.unparse(a.value.func) == "ColumnProfile"):
+                raise KeyError("the placeholder assignment")
+            call = a.value
+            args = {k: v for k, v in zip(("name", "type", "count", "missing"), call.args)}
+            if len(call.args) > 4:
+                raise KeyError("placeholder: more than four positional arguments")
+            for kw in call.keywords:
+                if kw.arg in args or kw.arg not in ("name", "type", "count", "missing"):
+                    raise KeyError("placeholder: argument %s" % kw.arg)
+                args[kw.arg] = kw.value
+            if ast.unparse(args.get("name", ast.Constant(None))) != name or ast.unparse(args.get("type", ast.Constant(None))) != left_c + ".type":
+                raise KeyError("placeholder: name and type of the left column")
+            penv = dict(env)
+            penv.update({left_c + ".count": "lc", left_c + ".missing": "lm"})
+            zero = ast.Constant(0)
+            placeholder = (to_lean(args.get("count", zero), penv, mode="field"), to_lean(args.get("missing", zero), penv, mode="field"))
+            continue
+        if isinstance(s, ast.Expr) and isinstance(s.value, ast.Call) and ast.unparse(s.value.func) == new + ".add_column" and order is None \
+                and left_c and right_c and len(s.value.args) == 2 and not s.value.keywords and ast.unparse(s.value.args[1]) == name:
+            e = ast.unparse(s.value.args[0]).replace(" ", "")
+            if e == "%s+%s" % (left_c, right_c):
+                order = True
+            elif e == "%s+%s" % (right_c, left_c):
+                order = False
+            else:
+                raise KeyError("add_column(%s, ...)" % e[:30])
+            continue
+        raise KeyError("statement in the loop: %s" % ast.unparse(s)[:50])
+    if placeholder is None or order is None:
+        raise KeyError("placeholder / add_column not found")
+    return placeholder[0], placeholder[1], order
+
+
+def generate_table(o, prof):
+    import re
+
+    def part(i):
+        def g():
+            text = table_add(prof)[i]
+            if i < 2:
+                free = set(re.findall(r"[A-Za-z_][A-Za-z0-9_.]*", text)) - {"lc", "lm", "rr"}
+                if free:
+                    raise KeyError("uses %s" % sorted(free))
+                if set(re.findall(r"(?<![A-Za-z_0-9.])\d+(?![A-Za-z_0-9])", text)) - {"0", "1", "2"}:
+                    raise KeyError("numeric literal")
+            return text
+        return g
+
+    pc = o.item("table_prof.placeholder_count", part(0), "lc")
+    pm = o.item("table_prof.placeholder_missing", part(1), "lc")
+    lf = o.item("table_prof.sum_left_first", part(2), True)
+    o.files["TableProfExpr.lean"] = HEADER + '''/-!
+The glue of `TableProfile.__add__` (`orso/profiler/profiler.py`) above `ColumnProfile.__add__`, lifted from the working tree
+(harness/extractors/c14.py): for every column name of the **left** table the left and the right column are looked up by name;
+a column the right table lacks is replaced by a placeholder `ColumnProfile(name, left.type, <count>, <missing>)` — no bounds,
+no histogram — and the two are added.
+-/
+namespace Gen.TableProf
+set_option linter.unusedVariables false
+
+section
+variable {K : Type} [Add K] [Sub K] [Mul K] [Div K] [OfNat K 0] [OfNat K 1] [OfNat K 2]
+
+/-- `count` of the placeholder: `lc` / `lm` = the left column's `count` / `missing`, `rr` = the right table's row count
+(`right._columns[0].count if right._columns else 0`) -/
+def placeholderCount (lc lm rr : K) : K := %s
+
+/-- `missing` of the placeholder -/
+def placeholderMissing (lc lm rr : K) : K := %s
+end
+
+/-- `new.add_column(left_column + right_column, name)`: the left column is the left operand of the column sum -/
+def sumLeftFirst : Bool := %s
+
+end Gen.TableProf
+''' % (pc, pm, "true" if lf else "false")
+
+
 def generate(o):
     prof = Src("orso/profiler/profiler.py")
     dist = Src("orso/profiler/distogram/__init__.py")
@@ -474,6 +628,10 @@ def generate(o):
         generate_obj(o, dist)
     except Exception as e:  # never let the object facts stop the profile facts
         o.degraded.append("distogram.obj failed: %s: %s" % (type(e).__name__, str(e)[:100]))
+    try:
+        generate_table(o, prof)
+    except Exception as e:
+        o.degraded.append("table_prof failed: %s: %s" % (type(e).__name__, str(e)[:100]))
 
     def counter(field):
         f = find_function(prof.tree, "__add__", "ColumnProfile")
@@ -541,6 +699,7 @@ def generate(o):
     cnt = o.item("profile_est.add_count", only(["mine", "theirs"], lambda: counter("count")), "(mine + theirs)")
     mis = o.item("profile_est.add_missing", only(["mine", "theirs"], lambda: counter("missing")), "(mine + theirs)")
     swp = o.item("profile_est.add_swap_test", only(["la", "lb"], swap_test, nat=True), "(lb > la)")
+    blw = o.item("profile_est.estimate_below", only(["total", "c"], lambda: below_expr(prof)), "c")
     lmin = o.item("profile_est.load_min", lambda: load_bound(dist, "min"), "given")
     lmax = o.item("profile_est.load_max", lambda: load_bound(dist, "max"), "given")
     how = {"given": "LoadBound.given", "falsy-first": "LoadBound.falsyFirst", "falsy-last": "LoadBound.falsyLast"}
@@ -580,11 +739,15 @@ def addCount (mine theirs : K) : K := %s
 
 /-- `new_profile.missing += profile.missing` -/
 def addMissing (mine theirs : K) : K := %s
+
+/-- what `estimate_values_below(point)` returns: `c` = `distogram.count_at(<the kept Distogram>, point)`, `total` = that
+histogram's own total -/
+def estimateBelowExpr (total c : K) : K := %s
 end
 
 /-- `len(profile.histogram) > len(self.histogram)`: the longer histogram receives the other one's bins -/
 def addSwapTest (la lb : Nat) : Bool := decide %s
 
 end Gen.ProfileEst
-''' % (how[lmin], how[lmax], b(uses), b(drops), cnt, mis, swp)
+''' % (how[lmin], how[lmax], b(uses), b(drops), cnt, mis, blw, swp)
     o.files["ProfileEstExpr.lean"] = text
